@@ -1,6 +1,7 @@
 package main
 
 import (
+	"os"
 	"bufio"
 	"crypto/ecdsa"
 	"fmt"
@@ -106,6 +107,31 @@ func (w *World) newHandler() *hws.RealtimeHandler {
 		ReceiptChan:             w.rchan,
 		PrivateKey:              w.key,
 	}
+}
+
+// stuckAfter is how long one sequential event may take before the harness gives up on it: a handler that does not return
+// (a lock that is never released, a channel nobody reads) is an outcome, not a hang of the check.
+var stuckAfter = 10 * time.Second
+
+// guard runs f; if it does not return in time, the event is logged as stuck and the process exits with status 3.
+func (w *World) guard(event string, f func()) {
+	done := make(chan struct{})
+	go func() {
+		select {
+		case <-done:
+		case <-time.After(stuckAfter):
+			// the goroutine running f is blocked: nobody else writes to w.out
+			if event != "" {
+				w.logEvent(event)
+			}
+			w.emit("O stuck")
+			w.emit("END")
+			w.out.Flush()
+			os.Exit(3)
+		}
+	}()
+	f()
+	close(done)
 }
 
 func (w *World) emit(format string, a ...any) {
@@ -245,7 +271,11 @@ func (w *World) Handle(c int) (handled bool) {
 		return false
 	}
 	w.canon.LastSid, w.canon.LastPing = 0, 0
-	msg, ok, err, panicked := cs.v.HandleNext()
+	var msg hwebsocket.Msg
+	var ok bool
+	var err error
+	var panicked string
+	w.guard(fmt.Sprintf("handle %d 0 none", c), func() { msg, ok, err, panicked = cs.v.HandleNext() })
 	if !ok {
 		w.logEvent(fmt.Sprintf("handle %d 0 none", c))
 		w.finishEvent("ok")
@@ -263,7 +293,7 @@ func (w *World) Handle(c int) (handled bool) {
 		w.know.dead(c)
 	case err != nil:
 		outcome = "connerr"
-		w.kill(c, err)
+		w.guard(fmt.Sprintf("handle %d 0 none", c), func() { w.kill(c, err) })
 	}
 	// drain first so that the hint (session id created / ping id issued) is known
 	var lines []string
@@ -293,7 +323,7 @@ func (w *World) Handle(c int) (handled bool) {
 func (w *World) Tick(sid int) {
 	w.logEvent(fmt.Sprintf("tick %d", sid))
 	if s, ok := w.store.GetByGlobalID(w.store.GlobalSessionID(uint32(sid))); ok {
-		s.VerifTick()
+		w.guard("", func() { s.VerifTick() })
 	}
 	// the session only signals the frame; every connection's own frame goroutine hands its updates over
 	ids := append([]int(nil), w.order...)
@@ -309,7 +339,7 @@ func (w *World) Tick(sid int) {
 func (w *World) Disconnect(c int) {
 	w.logEvent(fmt.Sprintf("disconnect %d", c))
 	if cs := w.conns[c]; cs != nil && cs.alive {
-		w.kill(c, nil)
+		w.guard("", func() { w.kill(c, nil) })
 	}
 	w.finishEvent("ok")
 }
